@@ -21,7 +21,9 @@ Trace lines:
 import os
 
 from nvlib import engine as E
+from nvlib import extract as X
 from nvlib.check import Prop
+from props import c14_extract as T
 
 N = 4096  # MESSAGE_BUF_SIZE; only used to aim the generators (the model uses the regenerated constant)
 
@@ -51,9 +53,15 @@ class C14(Prop):
                 "NV.C14.chunk_in_bounds", "NV.C14.no_fault", "NV.C14.write_interest_when_pending",
                 "NV.C14.N_two_le", "NV.C14.only_tail_lost", "NV.C14.write_stores_prefix_image",
                 "NV.C14.sent_then_ring_is_stored", "NV.C14.delivered_is_ordered_prefix_image",
-                "NV.C14.delivered_texts"]
-    consts = [("messageBufSize", "MESSAGE_BUF_SIZE")]
+                "NV.C14.delivered_texts",
+                # bridges between the definitions regenerated from src/comm.c and the ring operations
+                "NV.C14.chunkLen_eq", "NV.C14.producerNext_eq", "NV.C14.consumerNext_eq", "NV.C14.lengthAfterSend_eq",
+                "NV.C14.thrFull_eq", "NV.C14.thrLF_eq", "NV.C14.keepsData_eq", "NV.C14.keepsData_pipe",
+                "NV.C14.LF_CR_values"]
+    consts = [("messageBufSize", "MESSAGE_BUF_SIZE"), ("eWouldBlock", "EWOULDBLOCK"), ("eIntr", "EINTR"),
+              ("ePipe", "EPIPE")]
     const_headers = ["src/comm.h"]
+    const_prelude = "#include <errno.h>"
     quick_n = 250
     thorough_n = 3000
     search_n = 800
@@ -81,6 +89,18 @@ class C14(Prop):
                    "telnet IAC doubling is not done by the code and not claimed; PORT_TELNET negotiation output at connect",
                    "builds with FLUSH_OUTPUT_IMMEDIATELY",
                    "Windows IOCP runtime (only the Linux epoll runtime is run)"]
+
+    def gen_extra(self, ctx, bdir):
+        """chunk rule, index updates, ring-full tests, CR/LF bytes and the errno classification of flush_message,
+        translated from the text of src/comm.c (props/c14_extract.py); TieBroken when a site cannot be located"""
+        src = open(os.path.join(E.REPO, "src/comm.c"), errors="replace").read()
+
+        def errno_value(name):
+            try:
+                return X.probe_values(bdir, [("v", name)], self.const_headers, self.const_prelude)["v"]
+            except X.TieBroken:
+                raise X.TieBroken("guard:flush_message.errno", "errno name %s of flush_message is not a constant" % name)
+        return T.extract(src, errno_value)
 
     def prepare(self, ctx):
         self.exe = E.compile_harness("c14", [os.path.join(E.VERIF, "harness/c14/c14.c")], exclude_objs=("comm.c.o",))
